@@ -2578,6 +2578,20 @@ func (a *Association) handlePeerLastTSNAndAcknowledgement(sackImmediately bool) 
 	return reply
 }
 
+// senderOf returns the Stream object whose buffered amount accounts for the
+// chunk: the one that packetized it. That object may no longer be registered
+// under its identifier (the peer reset its direction of the stream), or the
+// identifier may have been taken by a new Stream since. Chunks that were not
+// created by a Stream are attributed to the registered stream, if any.
+// The caller should hold the lock.
+func (a *Association) senderOf(c *chunkPayloadData) *Stream {
+	if c.stream != nil {
+		return c.stream
+	}
+
+	return a.streams[c.streamIdentifier]
+}
+
 // The caller should hold the lock.
 func (a *Association) getMyReceiverWindowCredit() uint32 {
 	var bytesQueued uint32
@@ -2677,14 +2691,14 @@ func (a *Association) getOrCreateStream(
 //
 //nolint:gocognit,cyclop
 func (a *Association) processSelectiveAck(selectiveAckChunk *chunkSelectiveAck) (
-	bytesAckedPerStream map[uint16]int,
+	bytesAckedPerStream map[*Stream]int,
 	htna uint32,
 	newestDeliveredSendTime time.Time,
 	newestDeliveredOrigTSN uint32,
 	deliveredFound bool,
 	err error,
 ) {
-	bytesAckedPerStream = map[uint16]int{}
+	bytesAckedPerStream = map[*Stream]int{}
 	now := time.Now() // capture the time for this SACK
 
 	// Validate that full range exists in the inflight queue to prevent partial pops
@@ -2749,11 +2763,7 @@ func (a *Association) processSelectiveAck(selectiveAckChunk *chunkSelectiveAck) 
 			nBytesAcked := len(chunkPayload.userData)
 
 			// Sum the number of bytes acknowledged per stream
-			if amount, ok := bytesAckedPerStream[chunkPayload.streamIdentifier]; ok {
-				bytesAckedPerStream[chunkPayload.streamIdentifier] = amount + nBytesAcked
-			} else {
-				bytesAckedPerStream[chunkPayload.streamIdentifier] = nBytesAcked
-			}
+			bytesAckedPerStream[a.senderOf(chunkPayload)] += nBytesAcked
 
 			// RFC 4960 sec 6.3.1.  RTO Calculation
 			//   C4)  When data is in flight and when allowed by rule C5 below, a new
@@ -2816,11 +2826,7 @@ func (a *Association) processSelectiveAck(selectiveAckChunk *chunkSelectiveAck) 
 				nBytesAcked := a.inflightQueue.markAsAcked(tsn)
 
 				// Sum the number of bytes acknowledged per stream
-				if amount, ok := bytesAckedPerStream[chunkPayload.streamIdentifier]; ok {
-					bytesAckedPerStream[chunkPayload.streamIdentifier] = amount + nBytesAcked
-				} else {
-					bytesAckedPerStream[chunkPayload.streamIdentifier] = nBytesAcked
-				}
+				bytesAckedPerStream[a.senderOf(chunkPayload)] += nBytesAcked
 
 				a.log.Tracef("[%s] tsn=%d has been sacked", a.name, chunkPayload.tsn)
 
@@ -3048,8 +3054,8 @@ func (a *Association) processAcknowledgement(
 		a.onCumulativeTSNAckPointAdvanced(totalBytesAcked)
 	}
 
-	for si, nBytesAcked := range bytesAckedPerStream {
-		if s, ok := a.streams[si]; ok {
+	for s, nBytesAcked := range bytesAckedPerStream {
+		if s != nil {
 			a.lock.Unlock()
 			s.onBufferReleased(nBytesAcked)
 			vfYield(a, vfSiteAckRelease)
